@@ -68,6 +68,9 @@ func (rpSuite) Gen(r *rand.Rand, i int) Case {
 	}
 	perBucket := map[int64]int{}
 	nops := 1 + r.Intn(40)
+	if r.Intn(25) == 0 {
+		nops = 200 + r.Intn(300) // a long history: state that only goes wrong after it accumulates
+	}
 	if dense {
 		nops = 25*n + r.Intn(40*n)
 		c.Tags = append(c.Tags, "dense")
